@@ -18,6 +18,16 @@ CHECKS = {
             "branch is decoded and its effective target recomputed, every rejected one must fail with branch-out-of-bounds/odd-branch on the "
             "branch's own line. Relative operands are sampled (positions, preceding extension words, target shapes, wrap-around bases).",
             "Trusts the handbook rule target = PC after fetch + displacement.", "3 C04"),
+    "C08": ("exploration", "outcome classifier under a sys.monitoring logical clock over grammar-directed generation, token/character mutation and corpus splicing",
+            "Every input is assembled by the real parser+compiler under one of the real report handlers inside a worker with a deterministic "
+            "logical step budget; the outcome is classified (ok / fail with errors / fail silently / internal exception / non-termination) and a "
+            "sample is tied to the CLI's banner and exit status. Listed findings are matched by mechanism predicates; anything else is a violation.",
+            "Finite sampling of an unbounded input space; non-termination is decided as exceeding a logical budget ~10x above the largest legitimate cost seen.", "3 C08"),
+    "C18": ("exploration", "history checker (probe after history vs fresh process, in forked children) + state invariants at quiescent points + PYTHONHASHSEED sweep",
+            "Histories of valid, failing, crashing and hostile assemblies precede a probe in one process; the probe's observable must equal "
+            "that of a fresh process, the module-level state must be at rest after every assembly that ended by itself, and fresh observables "
+            "must agree across hash seeds.",
+            "Observables compared: status, base, bytes, emitted-file list, diagnostics by severity/identifier/positions (not message text).", "3 C18"),
     "C13": ("exploration", "independent container readers (bin, RIFF, BK tape demodulator) over outputs of the real format functions and of shim-observed CLI runs",
             "Contract-style wrappers feed the real file_formats functions with synthetic (base, image, name) and decode what they return with "
             "independent readers; CLI runs are observed through an audit-hook/snapshot shim so that the set of files written is compared with "
